@@ -489,14 +489,14 @@ def run(ctx):
             run_scripted(ctx, sexe, [l for l in corpus.read_text().splitlines() if l.strip() and not l.startswith("#")], "corpus")
         codes = gen_codes(rng, thorough)
         run_scripted(ctx, sexe, codes, "code tables (exhaustive 0..134 + outliers)")
-        st = gen_stack(rng, ctx.scale(4000, 300000))
+        st = gen_stack(rng, ctx.scale(4000, 1000000))
         run_scripted(ctx, sexe, st, "stack size")
-        tw = gen_timedwait(rng, ctx.scale(3000, 200000))
+        tw = gen_timedwait(rng, ctx.scale(3000, 600000))
         run_scripted(ctx, sexe, tw, "timedwait deadline")
         ctx.sample({"scripted": [codes[20], st[5], st[-1], tw[3], tw[-1]]})
         ctx.notes["scripted_lines"] = {"codes": len(codes), "stack": len(st), "timedwait": len(tw)}
     if rexe:
-        prog = real_program(rng, ctx.scale(8, 24), ctx.scale(6000, 20000), ctx.scale(1, 3))
+        prog = real_program(rng, ctx.scale(8, 24), ctx.scale(6000, 20000), ctx.scale(1, 6))
         run_real(ctx, rexe, prog, "contention")
         for tmo, ms in ((U64 - 1, 50), (U64 - 1 - rng.below(10 ** 9), 30), (2 ** 63, 20), (3600 * NS, 20)):
             run_real(ctx, rexe, [f"longwait {tmo} {ms}"], "far deadline")
